@@ -65,6 +65,16 @@ def entry_points(o, d, doc=OPTION_DOC):
         with captured() as (out, _):
             rc = main(fl + ["-i", "--nobackup", ci])
         res["cli:inplace"] = open(ci).read() if rc == 0 else "rc=%d" % rc
+        # several plain file arguments: each gets the result it would get alone, in ARGUMENT order (not sorted, none
+        # skipped) -- recorded as the text-API result when that holds, so that the generic comparison applies
+        zf, af = os.path.join(d, "z_first.md"), os.path.join(d, "a_second.md")
+        doc2 = doc + "\nSecond file only, with \"quotes\"... and more.\n"
+        open(zf, "w").write(doc)
+        open(af, "w").write(doc2)
+        with captured() as (out, _):
+            rc = main(fl + [zf, af, zf])
+        want2 = res["text"] + reformat_text(doc2, **o) + res["text"]
+        res["cli:several_files_in_argument_order"] = res["text"] if (rc == 0 and out.getvalue() == want2) else "rc=%s out=%s" % (rc, out.getvalue()[:400])
     return res
 
 
@@ -132,7 +142,7 @@ def usage_errors(d, doc=OPTION_DOC):
     before = sorted(os.listdir(d))
     with in_dir(d):
         for argv, stdin in ([], None), (["-o", os.path.join(d, "uo.md"), f1, f2], None), (["-i", "-"], doc), (["--auto"], None), \
-                (["-o", os.path.join(d, "uo.md"), "-", f1], doc):
+                (["-o", os.path.join(d, "uo.md"), "-", f1], doc), (["-i", f1, "-"], doc), (["-i", "--nobackup", f1, "-", f2], doc), (["--auto", f1, "-"], doc):
             with captured(stdin_text=stdin) as (out, err):
                 rc = main(list(argv))
             res.append({"argv": argv, "rc": rc, "stdout": out.getvalue(),
@@ -224,7 +234,7 @@ def bounded(tier, seed):
         shutil.rmtree(d, ignore_errors=True)
     return {"evaluations": evals, "distinct_nontrivial": len(distinct), "violations": violations, "samples": samples,
             "rule": "option points {width 0/40/88} x 2^5 flags x 3 list-spacings (quick: width-40/preserve slice + 24 seeded "
-                    "others; thorough: all 288) x 11 entry points on one option-sensitive document (+ the same document with a byte-order mark, and with CRLF line ends through the 6 file-reading entry points, compared in binary); distinct = distinct "
+                    "others; thorough: all 288) x 12 entry points on one option-sensitive document (+ the same document with a byte-order mark, and with CRLF line ends through the 6 file-reading entry points, compared in binary); distinct = distinct "
                     "text-API outputs",
             "exhaustive": tier == "thorough", "bound": "1 document, 288 option points"}
 
